@@ -918,23 +918,11 @@ func c09names(c *an.Ctx) {
 	}
 	// helper summaries are obligations themselves
 	if gtca != nil {
-		for _, r := range an.Returns(gtca) {
-			if !isSuccessReturn(r) {
-				continue
-			}
-			t, ch := an.Resolve(r.Results[0]), an.Resolve(r.Results[1])
-			okT, okC := false, false
-			for _, f := range an.FactsAt(r.Block()) {
-				if call, ok := f.V.(*ssa.Call); ok && f.True {
-					if an.IsCallTo(call, vt) && an.SameValue(call.Call.Args[0], t) {
-						okT = true
-					}
-					if an.IsCallTo(call, vc) && an.SameValue(call.Call.Args[0], ch) {
-						okC = true
-					}
-				}
-			}
-			c.Check(okT && okC, gtca, "GetTopicChannelArgs returns validated names", r.Pos(), "", "GetTopicChannelArgs can return (topic, channel, nil) without both names having been validated")
+		okT, okC, w := namesValidatedOnPaths(gtca, vt, vc, false)
+		if okT && okC {
+			c.OK(gtca, "GetTopicChannelArgs returns validated names", gtca.Pos(), "")
+		} else {
+			c.Bad(gtca, "GetTopicChannelArgs returns validated names", gtca.Pos(), "GetTopicChannelArgs can return (topic, channel, nil) without both names having been validated", w)
 		}
 	}
 	if getExistingTopicQ != nil && gtca != nil {
